@@ -58,11 +58,25 @@ func Run(c *vf.Check) {
 			}
 		}
 	}
+	if c.Thorough() {
+		// two deviating parties (n - t = 2): n = 5, t = 3, every pair of behaviours from a reduced menu
+		two := []fault{{"absent", 0, 0}, {"bad-share", 0, 2}, {"bad-share+no-justification", 0, 2}, {"conflicting-deal-bundles", 0, 0},
+			{"false-complaint", 0, 2}, {"wrong-session-id-responses", 0, 2}, {"commitments-short", 0, 0}, {"share-to-wrong-holder", 0, 2}}
+		for _, fast := range []bool{false, true} {
+			for _, f1 := range two {
+				for _, f2 := range two {
+					f1, f2 := f1, f2
+					f1.party, f2.party = 0, 4
+					jobs = append(jobs, pcfg{n: 5, t: 3, fast: fast, fault: f1, fault2: f2, permNode: -1})
+				}
+			}
+		}
+	}
 	vf.Parallel(len(jobs), func(i int) { runPedersenJob(c, jobs[i]) })
 	rj := rabinJobs(c)
 	vf.Parallel(len(rj), func(i int) { rj[i]() })
 	runProtocol(c)
-	c.Finish("engine S/E on the real DistKeyGenerator objects (Pedersen) and the per-message Rabin API: n=3 (thorough 3,4), every t in [n/2+1, n], regular and fast-sync, fresh and resharing {same group, same members under permuted indices (full fault menu), one leaves and one joins, growing, shrinking, new threshold}; the deviating party (first or last index) gets one behaviour from a menu of 19 {absent in all / response / justification phases, invalid share to each victim (then justified, not justified, wrongly justified), share encrypted to the wrong holder, share index out of range, commitments of length t-1 / t+1, wrong session id on deals / responses / justifications, duplicate identical bundle, two conflicting bundles, false complaint against each dealer, success response in regular mode, response naming an unknown dealer, justification for an out-of-range index, (resharing) wrong constant term}; bundles are mutated honest bundles re-signed with the deviating party's key and filtered by VerifyPacketSignature at every receiver as the Protocol driver does. "+
+	c.Finish("engine S/E on the real DistKeyGenerator objects (Pedersen) and the per-message Rabin API: n=3 (thorough 3,4), every t in [n/2+1, n], regular and fast-sync, fresh and resharing {same group, same members under permuted indices (full fault menu), one leaves and one joins, growing, shrinking, new threshold}; (thorough: also n=5, t=3 with TWO deviating parties, every pair of behaviours from a menu of 8); the deviating party (first or last index) gets one behaviour from a menu of 19 {absent in all / response / justification phases, invalid share to each victim (then justified, not justified, wrongly justified), share encrypted to the wrong holder, share index out of range, commitments of length t-1 / t+1, wrong session id on deals / responses / justifications, duplicate identical bundle, two conflicting bundles, false complaint against each dealer, success response in regular mode, response naming an unknown dealer, justification for an out-of-range index, (resharing) wrong constant term}; bundles are mutated honest bundles re-signed with the deviating party's key and filtered by VerifyPacketSignature at every receiver as the Protocol driver does. "+
 		"For every honest node and phase, EVERY permutation of the bundle slice handed to ProcessDeals/Responses/Justifications is run and the node's emitted bundle and final output must equal those of the canonical order. End-state oracle: honest nodes that complete have identical commitments and QUAL, each share lies on the polynomial, every t-subset of honest shares reconstructs the secret of the public key, the key is the sum of QUAL's contributions (resharing: unchanged), a dealer with an unjustified invalid deal is not in QUAL, an honest dealer with < t complaints is; no fault => everybody completes. "+
 		"L2 - the goroutine-driven Protocol type: n=3 real dkg.Protocol instances (signature verification on) talk through a harness Board (unbuffered channels, one pending send at a time) and a harness Phaser, so the harness decides the whole schedule; events = {phase tick at node i (timers fire only when no delivery is pending anywhere), delivery of a posted packet to node i, one repeated delivery}; stateless depth-first search with sleep sets (events at different nodes commute), every execution run to completion on fresh objects, InitPhase ticks as barriers; regular mode without faults: ALL schedules (every Mazurkiewicz trace once); other configurations: all schedules within the stated number of deviations from the canonical synchronous-rounds schedule; deviating party behaviours {absent, invalid share (justified / not), two conflicting deal bundles, false complaint, two conflicting response bundles} applied to what its real Protocol pushes; plus an all-honest resharing from 3 members to 4 (one newcomer) in both modes; same end-state oracle plus: every Protocol goroutine delivers a result or an error. "+
 		"non-trivial = runs with a fault or a non-identity delivery order / non-canonical schedule; distinct by (configuration, fault, permuted node/phase/order or schedule)",
@@ -113,6 +127,12 @@ func runPedersenJob(c *vf.Check, p pcfg) {
 	for node := 0; node < nNodes; node++ {
 		if p.fault.party >= 0 && node == p.fault.party%nNodes {
 			continue
+		}
+		if p.fault2.kind != "" && p.fault2.party >= 0 && node == p.fault2.party%nNodes {
+			continue
+		}
+		if nNodes >= 5 && node != 1 && node != nNodes-2 {
+			continue // five participants: delivery orders at two of the honest nodes
 		}
 		for ph := 0; ph < 3; ph++ {
 			k := nNodes + 1 // upper bound on the slice length; shorter slices ignore the permutation
